@@ -39,6 +39,10 @@ class Plain(Exception):
     pass
 
 
+class ArithmeticSub(ArithmeticError):
+    pass
+
+
 class WithAttrs(Exception):
     def __init__(self, msg):
         Exception.__init__(self, msg)
@@ -218,6 +222,9 @@ CATALOGUE = {
     'LookupError': lambda: LookupError('l'),
     'AssertionError': lambda: AssertionError('a', 2),
     'NotImplementedError': lambda: NotImplementedError(),
+    'OverflowError': lambda: OverflowError(34, 'Numerical result out of range'),
+    'ArithmeticSub': lambda: ArithmeticSub('precision lost'),
+    'FloatingPointError': lambda: FloatingPointError('fp'),
     'Plain': lambda: Plain('p'),
     'WithAttrs': lambda: WithAttrs('w'),
     'TwoArg': lambda: TwoArg('a', 'b'),
@@ -262,7 +269,7 @@ CATALOGUE = {
     'GGuarded': lambda: GGuarded('gg'),
     'NoSubclass': lambda: NoSubclass('final'),
 }
-QUICK_SHAPES = ['ValueError', 'KeyError', 'KeyError-noargs', 'OSError-2', 'UnicodeDecodeError', 'StopIteration', 'WithAttrs', 'TwoArg',
+QUICK_SHAPES = ['OverflowError', 'ArithmeticSub', 'ZeroDivisionError', 'TypeError', 'ValueError', 'KeyError', 'KeyError-noargs', 'OSError-2', 'UnicodeDecodeError', 'StopIteration', 'WithAttrs', 'TwoArg',
                 'NonRebuildable', 'KwOnly', 'ArityChange', 'MsgPrefix', 'Slotted', 'GPlain', 'GTwoArg', 'GNonRebuildable', 'GKwOnly',
                 'GArityChange', 'GMsgPrefix', 'GMultiple', 'glom-PathAccessError', 'glom-MatchError', 'glom-TypeMatchError',
                 'glom-UnregisteredTarget', 'glom-CheckError', 'glom-CoalesceError', 'KeyboardInterrupt', 'SystemExit', 'MyBase',
@@ -323,6 +330,17 @@ class RaisingAttr:
             raise AttributeError(name)
         object.__getattribute__(self, '_inj').hit('target.__getattr__')
         return 7
+
+
+class RaisingOperand:
+    """a number-like target whose arithmetic raises the injected exception"""
+    def __init__(self, inj):
+        self._inj = inj
+
+    def _op(self, other):
+        self._inj.hit('target.__add__')
+        return 1
+    __add__ = __mul__ = __truediv__ = __pow__ = __mod__ = _op
 
 
 class RaisingIter:
@@ -390,6 +408,8 @@ def skeletons():
     sk('path-getitem-nested', 'PAE', lambda inj: ({'o': mk_raising_getitem(inj)}, {'r': 'o.a'}, glom))
     sk('t-getitem', 'T[', lambda inj: (mk_raising_getitem(inj), T['a'], glom))
     sk('t-getattr', 'T.', lambda inj: (RaisingAttr(inj), T.zz, glom))
+    sk('t-arithmetic-add', 'T+', lambda inj: (RaisingOperand(inj), T + 1, glom))
+    sk('t-arithmetic-pow-nested', 'T+', lambda inj: ({'n': RaisingOperand(inj)}, {'r': T['n'] ** 2}, glom))
     sk('list-iter', 'TypeError', lambda inj: (RaisingIter(inj, 'iter'), [T], glom))
     sk('list-next', 'pass', lambda inj: (RaisingIter(inj, 'next'), [T], glom))
 
@@ -472,6 +492,8 @@ def converts(kind, O):
         return isinstance(O, (KeyError, IndexError, TypeError))
     if kind == 'T.':
         return isinstance(O, AttributeError)
+    if kind == 'T+':
+        return isinstance(O, (TypeError, ZeroDivisionError))      # what Python raises for unsupported operands / division by zero; nothing else
     return False
 
 
@@ -495,7 +517,7 @@ def judge(kind, O, kwname, outcome, where):
     """outcome = ('returned', value) | ('raised', R)"""
     kw = mk_kwargs(kwname, O)
     conv = converts(kind, O)
-    eff_class = (CONVERTED['PAE'] if kind in ('T[', 'T.') else CONVERTED[kind]) if conv else None
+    eff_class = (CONVERTED['PAE'] if kind in ('T[', 'T.', 'T+') else CONVERTED[kind]) if conv else None
     origin = O if not conv else None
     # what is matched against skip_exc at the origin
     if 'skip_exc' in kw:
@@ -524,7 +546,7 @@ def judge(kind, O, kwname, outcome, where):
             return 'expected the documented %s, observed %r' % (eff_class.__name__, Rr)
         if not isinstance(Rr, GlomError) and not kw.get('glom_debug'):
             return 'a failure detected by glom must be a GlomError, observed %r' % (type(Rr).__mro__,)
-        if kind in ('PAE', 'T[', 'T.', 'Assign', 'Delete') and getattr(Rr, 'exc', None) is not O:
+        if kind in ('PAE', 'T[', 'T.', 'T+', 'Assign', 'Delete') and getattr(Rr, 'exc', None) is not O:
             return 'the documented error must carry the original exception object, .exc is %r' % (getattr(Rr, 'exc', None),)
         return None
     if not isinstance(O, Exception):
